@@ -189,8 +189,13 @@ static void c10_body(const struct rcfg *c)
       }
     }
     /* did a descriptor created by the library land on 0-2? (that is what closing them is for) */
-    for (int fd = 0; fd < 3; fd++)
-      if (!(lowfd_before & (1 << fd)) && vk_lib_owns_fd(fd)) vk_hit(CL_LOW_FD_USED);
+    /* (since the library moves such descriptors away at once, what shows is the system call that handed one out) */
+    for (int i = 0; i < S->nevents; i++) {
+      const struct vk_event *e = &S->ev[i];
+      if (e->side != 0 || e->injected) continue;
+      if ((e->call == C_PIPE && e->ret == 0 && (e->a0 <= 2 || e->a1 <= 2)) || (e->call == C_OPEN && e->ret >= 0 && e->ret <= 2)) { vk_hit(CL_LOW_FD_USED); break; }
+    }
+    (void) lowfd_before;
     if (inherit_check("C11", ch, &ex) == 0) vk_hit(CL_INHERIT_OK);
   }
   reproc_stop_actions k = { { REPROC_STOP_KILL, REPROC_INFINITE }, { REPROC_STOP_NOOP, 0 }, { REPROC_STOP_NOOP, 0 } };
